@@ -93,6 +93,16 @@ Theorem C28_sampler_draw_unclamped_refuted : sampler_draw false (-1) = None.
 Proof. exact sampler_draw_unclamped_refuted. Qed.
 Print Assumptions C28_sampler_draw_unclamped_refuted.
 
+(* KNOWN FINDING (not fixed): Traces.BatchTimeout with 0 < d < 4ns passes validation; DirectTransmission starts
+   its dispatch goroutine with time.NewTicker(d/4) = NewTicker(0), which panics: refinery dies at startup. *)
+Theorem C28_batch_ticker_refuted : exists d, duration_accepted true d = true /\ d <> 0 /\ batch_ticker d = None.
+Proof. exact batch_ticker_refuted. Qed.
+Print Assumptions C28_batch_ticker_refuted.
+
+Theorem C28_batch_ticker_partial : forall d, 4 <= d -> batch_ticker d <> None.
+Proof. exact batch_ticker_partial. Qed.
+Print Assumptions C28_batch_ticker_partial.
+
 (* Non-vacuity: the models compute the documented results on ordinary inputs *)
 Example C28_nonvacuous :
   key_fields root_prefix computed_prefix key_fields_skips_empty ["root.service"; "http.status"; "?.NUM_DESCENDANTS"; ""; "http.status"]%string
